@@ -737,6 +737,77 @@ def check_sharp(case):
     return dict(nt=len(events) > 0, cls=classes_of(case, stats), ratio=worst)
 
 
+# ------------------------------------------------------------------ several passes over one station
+
+
+@st.composite
+def passes_case(draw, shard, tier):
+    """LEO over a mid-latitude station near its ground track, 3-4 revolutions in ONE iteration (several
+    passes), step 60-180 s; a RadialVelocityListener(sight=True) is always present (its condition makes
+    it skip the samples between the passes), other station listeners are drawn."""
+    prop = draw(st.sampled_from(["kepler", "kepler", "sgp4"]))
+    case = dict(prop=prop, mjd=draw(st.integers(50000, 57500)), sec=float(draw(st.integers(0, 86399))))
+    if prop == "sgp4":
+        case["tle"] = dict(i=draw(go.uniform(0.87, 1.75)), raan=draw(go.uniform(0, 6.28)), e=10 ** draw(go.uniform(-3, -2)),
+                           argp=draw(go.uniform(0, 6.28)), M=draw(go.uniform(0, 6.28)), n=draw(go.uniform(12.5, 15.0)),
+                           bstar=draw(st.sampled_from([0.0, 1e-5, 1e-4])))
+    else:
+        rp = 6378136.3 + draw(go.uniform(4.5e5, 1.5e6))
+        e = 10 ** draw(go.uniform(-3, -1.5))
+        M = draw(go.uniform(0, TWO_PI))
+        case["el"] = dict(body="Earth", a=rp / (1 - e), e=e, i=draw(go.uniform(0.87, 1.75)), raan=draw(go.uniform(0, TWO_PI)),
+                          argp=draw(go.uniform(0, TWO_PI)), anom=M, nu=tb.E2nu(tb.solve_kepler_E(M, e), e))
+    period = period_of(case)
+    step = float(draw(st.integers(60, 180)))
+    n = min(200, int(draw(go.uniform(3.0, 4.0)) * period / step))
+    case.update(step=step, n=n, offset=float(draw(st.integers(0, 600))))
+    from ..oracles import iers
+
+    for leap in iers.tables(env.repo()).leap_days(0):
+        if case["mjd"] - 1 <= leap <= case["mjd"] + 2:
+            case["mjd"] = leap + 2
+    sta = draw(station_spec())
+    # the reference pass early in the span (sometimes at its very beginning: iteration starts in sight)
+    sta["at"] = draw(st.sampled_from([0.0, 0.01])) if draw(st.integers(0, 4)) == 0 else draw(go.uniform(0.05, 0.45))
+    sta["dlat"], sta["dlon"] = draw(go.uniform(-3.0, 3.0)), draw(go.uniform(-5.0, 5.0))
+    case["station"] = sta
+    pool = ["signal", "max", "radial"] + (["mask"] if sta["mask"] is not None else [])
+    case["listeners"] = [dict(kind="radial", sight=True)] + [draw(listener_spec(case, pool))
+                                                              for _ in range(draw(st.integers(0, 2)))]
+    return case
+
+
+def check_passes(case):
+    items, stats, (source, native, listeners, specs, gs, sidx) = analyse(case, {"model", "labels"})
+    what = describe(case)
+    geo = station_of(case)[1]
+    # passes seen by the sampling
+    els = [topo_state(items[k].sv, geo)["el"] for k in sidx]
+    passes = sum(1 for a, b in zip([-1.0] + els, els) if a <= 0 < b)
+    # every reported zero-Doppler event is a zero of the range-rate (the 2 us bracket x the range
+    # acceleration; 45 us through Sgp4)
+    worst = 0.0
+    t_res = 45e-6 if case["prop"] == "sgp4" else 3e-6
+    for it in items:
+        if it.label is None or it.dup or gs[it.lis].kind != "radial":
+            continue
+        t = topo_state(it.sv, geo)
+        c = np.asarray(it.sv.copy(frame="ITRF", form="cartesian").base, float)
+        acc = float(np.linalg.norm(c[3:])) ** 2 / max(t["rng"], 1.0) + 10.0
+        tol = 1e-4 + t_res * acc
+        worst = max(worst, abs(t["rdot"]) / tol)
+        if abs(t["rdot"]) > tol:
+            raise Violation("sharp-radial", f"{what}: '{it.label}' at t = {it.us / 1e6} s has a range-rate of "
+                                            f"{t['rdot']:.6g} m/s (tol {tol:.3g})", listener="radial")
+        if gs[it.lis].spec["sight"] and t["el"] < -1e-8:
+            raise Violation("model-spurious-radial", f"{what}: '{it.label}' at t = {it.us / 1e6} s while the satellite is "
+                                                     f"{t['el']:.4g} rad below the horizon (sight=True)", listener="radial")
+    cls = classes_of(case, stats) + [f"passes:{min(passes, 4)}"]
+    if els and els[0] > 0:
+        cls.append("starts-in-sight")
+    return dict(nt=stats["events"] > 0 and passes >= 2, cls=cls, ratio=worst)
+
+
 # ------------------------------------------------------------------ closed forms (Kepler)
 
 
@@ -1121,6 +1192,9 @@ FACETS = [
                                                               props=("kepler", "kepler", "sgp4", "ephem")),
           check_model, setup=setup, shrink_quick=False,
           rule="stream with at least one event", quick=(8, 5), thorough=(32, 25)),
+    Facet("station_passes", passes_case, check_passes, setup=setup, shrink_quick=False,
+          rule="two or more passes over the station inside one iteration and at least one event",
+          quick=(8, 3), thorough=(32, 15)),
     Facet("ordered", lambda s, t: stream_case(s, t, nmin=2, nmax=4), check_ordered, setup=setup, shrink_quick=False,
           rule="stream with at least one event", quick=(6, 6), thorough=(16, 50)),
     Facet("sharp", lambda s, t: stream_case(s, t, nmax=3), check_sharp, setup=setup, shrink_quick=False,
